@@ -1,20 +1,31 @@
 ------------------------------- MODULE SetImpl ------------------------------
 (***************************************************************************)
-(* Implementation-shaped model of cty/set: hash buckets are Go slices      *)
-(* (array id, len) over heap arrays with a capacity; Add appends in place  *)
-(* when len < cap, Remove builds a fresh array, Copy copies the bucket     *)
-(* map but shares the slices.  TLC explores it to PREDICT histories in     *)
-(* which acting on one set changes another (copy isolation); the predicted *)
-(* histories are replayed on real ValueSets - only the real observation    *)
-(* can become a verdict.                                                   *)
+(* Implementation-shaped model of cty/set (which backs cty.ValueSet,       *)
+(* set-typed values and cty.PathSet): the members of one hash bucket are a *)
+(* Go slice (array id, len) over a heap array with a capacity; Add appends *)
+(* in place when len < cap, Remove builds a fresh array, Copy and the set  *)
+(* algebra build new sets.                                                 *)
+(*                                                                         *)
+(* The model is run under HYPOTHESES about where an implementation might   *)
+(* let two sets share a bucket slice or touch a shared array in place:     *)
+(*   copy    Copy stores the source's slices in the new set                *)
+(*   union   Union starts the result from the receiver's slices            *)
+(*   remove  Remove compacts the array in place (append(b[:i], b[i+1:]..)) *)
+(* TLC explores the model to PREDICT histories in which acting on one set  *)
+(* changes another one; the predicted histories are replayed on real       *)
+(* ValueSets and PathSets - only the real observation can be a verdict.    *)
+(* With no hypothesis switched on the model is the repaired algorithm, for *)
+(* which TLC must find no such history (SetImplFixed.cfg).                 *)
 (***************************************************************************)
 EXTENDS Integers, Sequences, FiniteSets, TLC, Json, IOUtils
-\* CopyShares = TRUE is the algorithm before the repair (bucket slices shared by Copy): its
-\* isolation-breaking histories are kept as adversarial replays.  FALSE is the repaired
-\* algorithm (Copy copies every bucket), for which TLC must find no such history.
-CopyShares == IF "VCOPYSHARES" \in DOMAIN IOEnv THEN IOEnv.VCOPYSHARES = "1" ELSE FALSE
-Elems == 1..5            \* four mutually non-equivalent elements of ONE hash bucket
-ISlots == {"s1", "s2"}
+Hyp == IF "VHYP" \in DOMAIN IOEnv THEN IOEnv.VHYP ELSE (IF "VCOPYSHARES" \in DOMAIN IOEnv /\ IOEnv.VCOPYSHARES = "1" THEN "copy" ELSE "")
+CopyShares == Hyp \in {"copy", "copy+remove"}
+UnionShares == Hyp \in {"union", "union+remove"}
+RemoveInPlace == Hyp \in {"copy+remove", "union+remove"}
+NoCopy == "VNOCOPY" \in DOMAIN IOEnv /\ IOEnv.VNOCOPY = "1"       \* PathSet has no Copy method
+MaxLen == IF "VLEN" \in DOMAIN IOEnv THEN atoi(IOEnv.VLEN) ELSE 6
+Elems == 1..5            \* mutually non-equivalent elements of ONE hash bucket
+ISlots == {"s1", "s2", "s3"}
 VARIABLES heap, sl, ihist, broken
 ivars == <<heap, sl, ihist, broken>>
 \* heap: sequence of arrays [cells: Seq(Elems \cup {0}), cap]; sl: slot -> [arr, len] (arr = 0: no bucket)
@@ -22,35 +33,46 @@ IInit == heap = <<>> /\ sl = [s \in ISlots |-> [arr |-> 0, len |-> 0]] /\ ihist 
 MembersOf(h, x) == IF x.arr = 0 THEN <<>> ELSE SubSeq(h[x.arr].cells, 1, x.len)
 Grow(c) == IF c = 0 THEN 1 ELSE 2 * c
 Pad(seq, n) == seq \o [i \in 1..(n - Len(seq)) |-> 0]
+HasE(h, x, e) == \E i \in 1..x.len : x.arr # 0 /\ h[x.arr].cells[i] = e
 AddTo(h, x, e) ==      \* returns <<heap', slice'>>
-  IF \E i \in 1..x.len : x.arr # 0 /\ h[x.arr].cells[i] = e THEN <<h, x>>
+  IF HasE(h, x, e) THEN <<h, x>>
   ELSE IF x.arr # 0 /\ x.len < h[x.arr].cap
        THEN <<[h EXCEPT ![x.arr].cells[x.len + 1] = e], [x EXCEPT !.len = @ + 1]>>
        ELSE LET c == Grow(IF x.arr = 0 THEN 0 ELSE h[x.arr].cap)
                 cells == Pad(Append(MembersOf(h, x), e), c)
             IN <<Append(h, [cells |-> cells, cap |-> c]), [arr |-> Len(h) + 1, len |-> x.len + 1]>>
+RECURSIVE AddAll(_, _, _)
+AddAll(h, x, es) == IF es = <<>> THEN <<h, x>> ELSE LET r == AddTo(h, x, Head(es)) IN AddAll(r[1], r[2], Tail(es))
 RemoveFrom(h, x, e) ==
-  IF ~\E i \in 1..x.len : x.arr # 0 /\ h[x.arr].cells[i] = e THEN <<h, x>>
+  IF ~HasE(h, x, e) THEN <<h, x>>
   ELSE LET rest == SelectSeq(MembersOf(h, x), LAMBDA y : y # e) IN
        IF rest = <<>> THEN <<h, [arr |-> 0, len |-> 0]>>
-       ELSE <<Append(h, [cells |-> rest, cap |-> Len(rest)]), [arr |-> Len(h) + 1, len |-> Len(rest)]>>
-Other(s) == CHOOSE t \in ISlots : t # s
+       ELSE IF RemoveInPlace
+            THEN <<[h EXCEPT ![x.arr].cells = Pad(rest, h[x.arr].cap) ], [x EXCEPT !.len = Len(rest)]>>   \* later cells keep stale values in Go; 0 here (never read)
+            ELSE <<Append(h, [cells |-> rest, cap |-> Len(rest)]), [arr |-> Len(h) + 1, len |-> Len(rest)]>>
+Fresh(h, ms) == IF ms = <<>> THEN <<h, [arr |-> 0, len |-> 0]>> ELSE AddAll(h, [arr |-> 0, len |-> 0], ms)
 Step(o) ==
-  /\ Len(ihist) < 6 /\ ~broken
+  /\ Len(ihist) < MaxLen /\ ~broken
   /\ LET s == o.s
          r == CASE o.op = "Add" -> AddTo(heap, sl[s], o.e)
                 [] o.op = "Remove" -> RemoveFrom(heap, sl[s], o.e)
                 [] o.op = "Copy" -> IF CopyShares \/ sl[s].arr = 0 THEN <<heap, sl[s]>>
                                     ELSE <<Append(heap, [cells |-> MembersOf(heap, sl[s]), cap |-> sl[s].len]), [arr |-> Len(heap) + 1, len |-> sl[s].len]>>
-         tgt == IF o.op = "Copy" THEN o.t ELSE s
+                [] o.op = "Union" -> IF UnionShares THEN AddAll(heap, sl[s], MembersOf(heap, sl[o.t]))
+                                     ELSE LET a == Fresh(heap, MembersOf(heap, sl[s])) IN AddAll(a[1], a[2], MembersOf(heap, sl[o.t]))
+         tgt == IF o.op = "Copy" THEN o.t ELSE IF o.op = "Union" THEN o.u ELSE s
          sl2 == [sl EXCEPT ![tgt] = r[2]]
      IN /\ heap' = r[1] /\ sl' = sl2
-        /\ broken' = (MembersOf(r[1], sl2[Other(tgt)]) # MembersOf(heap, sl[Other(tgt)]))
+        /\ broken' = \E x \in ISlots \ {tgt} : MembersOf(r[1], sl2[x]) # MembersOf(heap, sl[x])
   /\ ihist' = Append(ihist, o)
 IOps == {[op |-> "Add", s |-> s, e |-> e] : s \in ISlots, e \in Elems}
         \cup {[op |-> "Remove", s |-> s, e |-> e] : s \in ISlots, e \in Elems}
-        \cup {[op |-> "Copy", s |-> s, t |-> Other(s)] : s \in ISlots}
-INext == \E o \in IOps : Step(o)
+        \cup (IF NoCopy THEN {} ELSE {[op |-> "Copy", s |-> "s1", t |-> "s2"], [op |-> "Copy", s |-> "s1", t |-> "s3"], [op |-> "Copy", s |-> "s2", t |-> "s3"]})
+        \cup {[op |-> "Union", s |-> "s1", t |-> "s2", u |-> "s3"], [op |-> "Union", s |-> "s2", t |-> "s1", u |-> "s3"]}
+\* symmetry breaking by hand: elements are first used in increasing order
+UsedE == {ihist[i].e : i \in {j \in 1..Len(ihist) : "e" \in DOMAIN ihist[j]}}
+Canon(o) == "e" \in DOMAIN o => (o.e \in UsedE \/ o.e = Cardinality(UsedE) + 1)
+INext == \E o \in IOps : Canon(o) /\ Step(o)
 ISpec == IInit /\ [][INext]_ivars
 \* not an assertion about the code: a printer of predicted counterexamples
 EmitBroken == broken => PrintT(ToJson([beh |-> ihist]))
